@@ -46,7 +46,7 @@ def parse_block(lines, base, start_no=0):
     n = len(lines)
     while i < n:
         line = lines[i]
-        if line.strip() == "":
+        if line.strip(" \t") == "":
             items.append(("blank",))
             i += 1
             continue
@@ -56,8 +56,8 @@ def parse_block(lines, base, start_no=0):
             node = Node(m.group(2), m.group(3), ind, start_no + i)
             i += 1
             # options: field-looking lines immediately following, indented deeper than the marker
-            while i < n and lines[i].strip() != "" and _indent_of(lines[i]) > ind:
-                fm = FIELD_RE.match(lines[i].strip())
+            while i < n and lines[i].strip(" \t") != "" and _indent_of(lines[i]) > ind:
+                fm = FIELD_RE.match(lines[i].strip(" \t"))
                 if fm and not node.items:
                     node.options.append((fm.group(1), fm.group(2) or ""))
                     i += 1
@@ -65,22 +65,22 @@ def parse_block(lines, base, start_no=0):
                     break
             # content: following lines blank or indented deeper than the marker
             j = i
-            while j < n and (lines[j].strip() == "" or _indent_of(lines[j]) > ind):
+            while j < n and (lines[j].strip(" \t") == "" or _indent_of(lines[j]) > ind):
                 j += 1
             content = lines[i:j]
             # trailing blank lines belong to the parent
-            while content and content[-1].strip() == "":
+            while content and content[-1].strip(" \t") == "":
                 content.pop()
                 j -= 1
-            nonblank = [c for c in content if c.strip()]
+            nonblank = [c for c in content if c.strip(" \t")]
             cind = min((_indent_of(c) for c in nonblank), default=ind + 3)
-            node.raw = [c[cind:] if c.strip() else "" for c in content]
+            node.raw = [c[cind:] if c.strip(" \t") else "" for c in content]
             node.cind = cind
             node.items = parse_block(content, cind, start_no + i)
             items.append(("dir", node))
             i = j
             continue
-        fm = FIELD_RE.match(line.strip()) if ind == base else None
+        fm = FIELD_RE.match(line.strip(" \t")) if ind == base else None
         if fm:
             items.append(("field", fm.group(1), fm.group(2) or ""))
         else:
